@@ -28,7 +28,10 @@ PairOk(e) ==  \* C08: same messages, same kind of terminal outcome, no panic
   /\ Outs(e.alog) = Outs(e.blog) /\ EndOf(e.alog) = EndOf(e.blog) /\ EndOf(e.alog) \in {"eos", "err"}
   /\ \A i \in 1..Len(e.alog) : e.alog[i].t = "out" => e.alog[i].ret = "same"
   /\ e.am = e.bm
-Matches(e) == CASE e.op = "reader" -> ReaderOk(e) [] e.op = "pair" -> PairOk(e) [] OTHER -> FALSE
+\* growth beyond the listed properties: a caller that goes on after errors reaches the end of the stream (named deviation: the readers
+\* continue wherever the source stands; the property C07 says nothing about calls after an error)
+ContOk(e) == e.res.v = "ok" /\ e.res.ended /\ e.calls <= e.n + 8
+Matches(e) == CASE e.op = "reader" -> ReaderOk(e) [] e.op = "pair" -> PairOk(e) [] e.op = "cont" -> ContOk(e) [] OTHER -> FALSE
 \* ---- conformance of the log to the machine (normalised: HdrDone is taken as soon as it is enabled)
 Eager(stream, sh, s) == IF HdrEnabled(s, sh) THEN HdrDone(stream, s, sh) ELSE s
 MachineStep(stream, sh, acc, x) ==     \* acc = [s, ok]
@@ -40,7 +43,8 @@ MachineStep(stream, sh, acc, x) ==     \* acc = [s, ok]
     [] x.t = "end" -> [s |-> s, ok |-> acc.ok /\ s.term = x.ret /\ ~BodyEnabled(s)]
     [] OTHER -> [s |-> s, ok |-> FALSE]
 Conforms(stream, sh, log) == LET step(acc, x) == MachineStep(stream, sh, acc, x) IN FoldLeft(step, [s |-> Init0, ok |-> TRUE], log).ok
-Drifts(e) == CASE e.op = "reader" -> ~Conforms(e.stream, e.sh, e.log)
+Drifts(e) == CASE e.op = "cont" -> FALSE
+               [] e.op = "reader" -> ~Conforms(e.stream, e.sh, e.log)
                [] e.op = "pair" -> ~(Conforms(e.stream, e.sh, e.alog) /\ Conforms(e.stream, e.sh, e.blog))
                [] OTHER -> FALSE
 Init == l = 1 /\ bad = <<>> /\ drift = 0
@@ -48,7 +52,7 @@ Next == /\ l <= Len(Rec) /\ l' = l + 1
         /\ bad' = IF Matches(Rec[l]) THEN bad ELSE Append(bad, l)
         /\ drift' = IF Drifts(Rec[l]) THEN drift + 1 ELSE drift
 Spec == Init /\ [][Next]_<<l, bad, drift>>
-ModelSays(e) == IF e.op = "reader" THEN <<"cut", Cut(e.stream, e.sh), AllowedEnd(e.stream, e.sh)>> ELSE <<"pair", 0>>
+ModelSays(e) == IF e.op = "cont" THEN <<"ends", e.n>> ELSE IF e.op = "reader" THEN <<"cut", Cut(e.stream, e.sh), AllowedEnd(e.stream, e.sh)>> ELSE <<"pair", 0>>
 Report == (l = Len(Rec) + 1) => /\ \A i \in 1..Len(bad) : PrintT(<<"MISMATCH", bad[i], Rec[bad[i]].op, ModelSays(Rec[bad[i]])>>)
                                 /\ PrintT(<<"DRIFT", drift>>)
                                 /\ PrintT(<<"SUMMARY", Len(Rec), Len(bad)>>)
